@@ -8,6 +8,7 @@ import DecModel.Judge
 import DecModel.HkGen
 import DecGen.Api
 import DecGen.Api2
+import DecGen.Api3
 import DecModel.BinConvCode
 import DecModel.RoundHelpers
 import DecModel.PackHelpers
@@ -123,7 +124,21 @@ def judgeApi (modeTok : String) (o : Obs) : String :=
   | none => "skip"
   | some as =>
     match Dec.Gen.Api.run o.op mode (UInt32.ofNat o.flagsIn) as with
-    | none => "skip"
+    | none =>
+      -- the trait glue of d128.rs (operators, *Assign, Neg, integer From impls, Default, Sum / Product, copy …): DecGen/Api3.lean;
+      -- none of these entry points has a status word, so the word must come back as it went in
+      (match Dec.Gen.Api3.run3 o.op as with
+       | none => "skip"
+       | some (.error why) =>
+         (match o.out with
+          | none => "ok api-panic-agrees"
+          | some _ => "corr translated-code predicts a panic (" ++ why ++ "), the compiled glue returned")
+       | some (.ok rs) =>
+         (match o.out with
+          | none => "corr translated-code returns, the compiled glue panicked"
+          | some (rv, rf) =>
+            if rv == rs.map ofAVal && rf == o.flagsIn then "ok api-translated"
+            else "corr translated-code predicts " ++ " ".intercalate ((rs.map ofAVal).map showVal) ++ " " ++ String.ofList (Nat.toDigits 16 o.flagsIn)))
     | some (.error why) =>
       match o.out with
       | none => "ok api-panic-agrees"
